@@ -1,5 +1,273 @@
-import Banyan.Model.Util
-open Banyan
+import Banyan.Model.C08
+open Banyan Banyan.C08
 
-/- stub: model driver for C08 not built yet -/
-def main : IO Unit := runDriver fun _ => "bad-op"
+/-! Line-protocol driver of the C08 model (same lines as hooks/banyand/internal/verifdrv/c08). -/
+
+def b01 (b : Bool) : String := if b then "1" else "0"
+
+def splitOn1 (s : String) (sep : String) : List String := s.splitOn sep
+
+def parseI64 (s : String) : Option I64 := s.toInt?.map (BitVec.ofInt 64)
+
+def parseHexList (s : String) : Option (List Bytes) :=
+  if s == "_" then some [] else (s.splitOn ",").mapM bytesOfHex
+
+/-- value token: N | S<hex> | I<dec> | A<hex,..> | J<dec,..>; `M` (nil value) is `none`. -/
+def parseVal (s : String) : Option (Option Val) :=
+  match s.toList with
+  | ['M'] => some none
+  | ['N'] => some (some .null)
+  | 'S' :: r => (bytesOfHex (String.ofList r)).map fun b => some (.str b)
+  | 'I' :: r => (parseI64 (String.ofList r)).map fun v => some (.int v)
+  | ['A'] => some (some (.strArr []))
+  | 'A' :: r => ((String.ofList r).splitOn ",").mapM bytesOfHex |>.map fun a => some (.strArr a)
+  | ['J'] => some (some (.intArr []))
+  | 'J' :: r => ((String.ofList r).splitOn ",").mapM parseI64 |>.map fun a => some (.intArr a)
+  | _ => none
+
+def tagIndex (s : String) : Nat :=
+  match s with
+  | "s" => 0 | "t" => 1 | "i" => 2 | "k" => 3 | "a" => 4 | "j" => 5
+  | _ => 99
+
+def schema : List TagType := [.str, .str, .int, .int, .strArr, .intArr]
+
+def tagVT (t : Nat) : VT :=
+  match t with
+  | 0 | 1 => .str
+  | 2 | 3 => .int
+  | 4 => .strArr
+  | _ => .intArr
+
+def parseOp (s : String) : Option Op :=
+  match s with
+  | "eq" => some .eq | "ne" => some .ne | "lt" => some .lt | "le" => some .le
+  | "gt" => some .gt | "ge" => some .ge | "in" => some .in_ | "nin" => some .notIn
+  | "hav" => some .having | "nhav" => some .notHaving | "match" => some .match_
+  | _ => none
+
+/-- prefix notation; fuel = number of tokens -/
+def parseCrit : Nat → List String → Option (Criteria × List String)
+  | 0, _ => none
+  | fuel + 1, toks =>
+    match toks with
+    | "and" :: rest => do
+      let (l, r1) ← parseCrit fuel rest
+      let (r, r2) ← parseCrit fuel r1
+      pure (.and l r, r2)
+    | "or" :: rest => do
+      let (l, r1) ← parseCrit fuel rest
+      let (r, r2) ← parseCrit fuel r1
+      pure (.or l r, r2)
+    | op :: tag :: v :: rest => do
+      let o ← parseOp op
+      let lit ← parseVal v
+      let l ← lit
+      pure (.leaf o (tagIndex tag) l, rest)
+    | _ => none
+
+def criteriaOf (toks : List String) : Option Criteria :=
+  match parseCrit (toks.length + 1) toks with
+  | some (c, []) => some c
+  | _ => none
+
+def splitBar (toks : List String) : List String × List String :=
+  (toks.takeWhile (· != "|"), (toks.dropWhile (· != "|")).drop 1)
+
+/-- MATCH without an analyzer is `Contains`. -/
+def mtDefault : Val → Val → Bool := valContains
+
+def parseRowVals (toks : List String) : Option Row :=
+  (toks.takeWhile (· != "X")).mapM parseVal
+
+def errName : BuildErr → String
+  | .tag => "ERR:tag" | .op => "ERR:op"
+
+/-- scan-predicate verdicts of a list of rows: 1 / 0 / E, or "B" when the filter does not build. -/
+def tfBits (c : Criteria) (rows : List Row) : String :=
+  match buildCheck schema c with
+  | some _ => "B"
+  | none =>
+    if rows.isEmpty then "-" else
+    String.ofList (rows.map fun r => match eval mtDefault c r with
+      | some true => '1' | some false => '0' | none => 'E')
+
+/-! ### bloom -/
+
+def wordHex (bits : List Bool) : String :=
+  -- 64 bits, bit j = 2^j
+  let n := (List.range 64).foldl (fun acc j => if bits[j]? == some true then acc + 2 ^ j else acc) 0
+  hexOfBytes (beBytes 8 n)
+
+def wordsHex : Nat → List Bool → List String
+  | 0, _ => []
+  | f + 1, bits => if bits.isEmpty then [] else wordHex (bits.take 64) :: wordsHex f (bits.drop 64)
+
+def bitsStr (l : List Bool) : String := if l.isEmpty then "-" else String.ofList (l.map fun b => if b then '1' else '0')
+
+def doBloom (n : Nat) (adds qs : List Bytes) : String :=
+  let bf0 := Bloom.new n
+  let (bf, isNew) := adds.foldl (fun (acc : Bloom × List Bool) a =>
+      (acc.1.add xxh64 a, acc.2 ++ [acc.1.addIsNew xxh64 a])) (bf0, [])
+  let r := qs.map (bf.mightContain xxh64)
+  let nw := bf.bits.length / 64
+  s!"{nw} {",".intercalate (wordsHex (nw + 1) bf.bits)} {bitsStr isNew} {bitsStr r} {bitsStr r} {b01 (bf.containsAll xxh64 qs)}"
+
+/-! ### dictionary -/
+
+def parseVT (s : String) : Option VT :=
+  match s with
+  | "str" => some .str | "int" => some .int | "strarr" => some .strArr | "intarr" => some .intArr
+  | _ => none
+
+def parseDictValue (vt : VT) (v : String) : Option Bytes :=
+  match vt with
+  | .strArr => (parseHexList v).map marshalStrArr
+  | .intArr => if v == "_" then some [] else ((v.splitOn ",").mapM parseI64).map fun l => (l.map encI64).flatten
+  | .int => (parseI64 v).map encI64
+  | .str => bytesOfHex v
+
+def parseDictValues (vt : VT) (s : String) : Option (List Bytes) :=
+  if s == "-" then some [] else (s.splitOn ";").mapM (parseDictValue vt)
+
+def parseItems (vt : VT) (s : String) : Option (List Bytes) :=
+  if s == "_" || s == "" then some []
+  else match vt with
+    | .int | .intArr => ((s.splitOn ",").mapM parseI64).map fun l => l.map encI64
+    | _ => (s.splitOn ",").mapM bytesOfHex
+
+def doDict (vt : VT) (vals : List Bytes) (queries : List String) : Option String := do
+  let d : Dict := ⟨vt, vals⟩
+  let rs ← queries.mapM fun q =>
+    match q.toList with
+    | 'm' :: r => (parseItems vt (String.ofList r)).map fun it => d.mightContain (it.headD [])
+    | 'c' :: r => (parseItems vt (String.ofList r)).map fun it => d.containsAll it
+    | _ => none
+  let after := if vals.isEmpty then "_" else ";".intercalate (vals.map hexOrDash)
+  pure s!"{String.ofList (rs.map fun b => if b then '1' else '0')} {after}"
+
+/-! ### summaries -/
+
+def parseCfg (s : String) : List Cfg :=
+  s.toList.map fun c => match c with
+    | 'v' => Cfg.inverted | 'k' => Cfg.skipping | _ => Cfg.none
+
+def optHex (s : String) : Option Bytes := if s == "-" then some [] else bytesOfHex s
+
+def parseSummary (tok : String) : Option (Option (Nat × TagSummary)) :=
+  match tok.splitOn "=" with
+  | [name, body] =>
+    let tag := tagIndex name
+    let vt := tagVT tag
+    match body.splitOn "/" with
+    | "absent" :: _ => some none
+    | [kind, mn, mx, payload] => do
+      let mnb ← optHex mn
+      let mxb ← optHex mx
+      let f ← match kind with
+        | "none" => some FilterS.none
+        | "bloom" =>
+          match payload.splitOn ":" with
+          | [n, items] => do
+            let its ← parseHexList items
+            pure (FilterS.bloom ((Bloom.new n.toNat!).addAll xxh64 its))
+          | _ => none
+        | "dict" => (parseDictValues vt payload).map fun vs => FilterS.dict ⟨vt, vs⟩
+        | _ => none
+      pure (some (tag, ⟨f, mnb, mxb, vt⟩))
+    | _ => none
+  | _ => none
+
+def showSkip (e : Engine) : Compiled SFilter → (SFilter → String) → String
+  | .err x, _ => "C" ++ errName x
+  | .panic, _ => if e == .stream then "CPANIC" else "PANIC"
+  | .ok f, k => k f
+
+def doSkip (e : Engine) (cfg : List Cfg) (sums : BlockSummary) (rows : List Row) (c : Criteria) : String :=
+  let bits := tfBits c rows
+  let comp := match e with
+    | .stream => compileStream schema cfg c
+    | .trace => compileTrace schema c
+  let v := showSkip e comp fun f =>
+    if e == .stream && f.isNever then "never"
+    else match shouldSkip xxh64 e sums f with
+      | some b => b01 b
+      | none => "SERR:range-type"
+  s!"{v} {bits}"
+
+/-! ### rows `sid:ts:v:v:v:v:v:v[...]` -/
+
+def parseDocRow (tok : String) : Option Row :=
+  let t := (tok.splitOn "*").headD ""
+  match t.splitOn ":" with
+  | _ :: _ :: vals => (vals.take 6).mapM parseVal
+  | _ => none
+
+def rowCount (tok : String) : Nat :=
+  match tok.splitOn "*" with
+  | [_, n] => n.toNat!
+  | _ => 1
+
+def doInv (cfg : List Cfg) (rows : List Row) (c : Criteria) : String :=
+  let bits := tfBits c rows
+  let docs : List Doc := (List.range rows.length).zipWith (fun i r => (i + 1, r)) rows
+  let v := match compileInv schema cfg c with
+    | .err x => "C" ++ errName x
+    | .panic => "CPANIC"
+    | .ok f =>
+      if f.isEnode then "all"
+      else match exec cfg docs f with
+        | .bypass => "all"
+        | .ids l => if l.isEmpty then "-" else ",".intercalate (l.map toString)
+  s!"{v} {bits}"
+
+def handleInv (toks : List String) : String :=
+  match toks with
+  | cfg :: rest =>
+    let (l, cr) := splitBar rest
+    match l.mapM parseDocRow, criteriaOf cr with
+    | some rows, some c =>
+      let rows := (l.zip rows).flatMap fun (t, r) => List.replicate (rowCount t) r
+      doInv (parseCfg cfg) rows c
+    | _, _ => "bad-op"
+  | _ => "bad-op"
+
+def handle (line : String) : String :=
+  let toks := words line
+  match toks with
+  | ["bloom", _, n, adds, qs] =>
+    match parseHexList adds, parseHexList qs with
+    | some a, some q => doBloom n.toNat! a q
+    | _, _ => "bad-op"
+  | ["dict", vt, vals, qs] =>
+    match parseVT vt with
+    | some t =>
+      match parseDictValues t vals with
+      | some vs => (doDict t vs (qs.splitOn ";")).getD "bad-op"
+      | none => "bad-op"
+    | none => "bad-op"
+  | "tf" :: rest =>
+    let (l, cr) := splitBar rest
+    match parseRowVals l, criteriaOf cr with
+    | some row, some c =>
+      match buildCheck schema c with
+      | some e => "B" ++ errName e
+      | none => match eval mtDefault c row with
+        | some b => b01 b
+        | none => "MERR:tag"
+    | _, _ => "bad-op"
+  | "skip" :: eng :: cfg :: nsum :: rest =>
+    let (l, cr) := splitBar rest
+    let n := nsum.toNat!
+    let e := if eng == "stream" then Engine.stream else Engine.trace
+    match (l.take n).mapM parseSummary, (l.drop n).mapM (fun t => (t.splitOn ":").mapM parseVal), criteriaOf cr with
+    | some sums, some rows, some c => doSkip e (parseCfg cfg) (sums.filterMap id) rows c
+    | _, _, _ => "bad-op"
+  | "invx" :: rest => handleInv rest
+  | "inv" :: rest => handleInv rest
+  | "part" :: _ => "-"
+  | "partx" :: _ => "-"
+  | "sum" :: _ => "-"
+  | _ => "bad-op"
+
+def main : IO Unit := runDriver handle
